@@ -110,6 +110,8 @@ def run(ctx):
         gets = [c for c in cmds if cmd(c) == E['SFC_GET_NORM_DOUBLE']]
         sets = [c for c in cmds if cmd(c) == E['SFC_SET_NORM_DOUBLE']]
         other = [c for c in cmds if cmd(c) not in (E['SFC_GET_NORM_DOUBLE'], E['SFC_SET_NORM_DOUBLE'])]
+        okg = bool(gets) and all(f.cfg.dominates(gets[0], c_) for c_ in sets)
+        ctx.ob('CALC-RESTORE', '%s:save-first' % name, okg, f.loc(gets[0]) if gets else f.loc(f.body), 'the normalisation setting is read (SFC_GET_NORM_DOUBLE) %s' % ('before any SFC_SET_NORM_DOUBLE of the function' if okg else 'AFTER the function has already changed it: what is restored at the end is the temporary value, not the caller\'s setting'), None)
         ctx.ob('CALC-RESTORE', '%s:commands' % name, bool(gets) and len(sets) >= 2 and not other, f.loc(f.body), 'state commands used: %d x GET_NORM_DOUBLE, %d x SET_NORM_DOUBLE, %d other (%s)' % (
             len(gets), len(sets), len(other), [cmd(c) for c in other]), None)
         savev = set()
